@@ -150,6 +150,7 @@ TNew ==
   LET ev == Log[l] IN
   /\ ev.e = "new"
   /\ Chk("C14") => MappingTimeoutsOK(ev.mT)
+  /\ Chk("C15") => SessionTimeoutsOK(ev.sT)
   /\ Chk("C16") => TableConsistent(ev)
   /\ tbl' = LiveSet(ev) /\ mT' = ev.mT /\ sT' = ev.sT /\ full' = FullOf(ev)
   /\ lastFrame' = << 0 - 1, 0 - 1 >> /\ lastHello' = 0 - 1 /\ lastNi' = << >>
